@@ -198,7 +198,10 @@ def run_case(desc):
         out.fail("deterministic", "a second call on a fresh SBC() with identical arguments returns different clusters")
     # history: the same instance clusters a different structure in between
     if n >= 2:
-        other = s[[i for i in range(n) if i % 2 == 0]]
+        if p["seed"] % 2:
+            other = s[[i for i in range(n) if i % 2 == 0]]
+        else:
+            other = s[list(np.random.RandomState(p["seed"] % (2 ** 31)).permutation(n))]      # same cell, same count, other order
         ro, _ = radii_for(p, other.get_atomic_numbers())
         call(run_sbc, other, p, ro, sbc)
         ok, r4 = call(run_sbc, s, p, rarg, sbc)
